@@ -52,8 +52,10 @@ Statements.
      when a branch ends in return / continue / break, the statements AFTER the if are moved into the other branch first
   return (no value) = end of the function;  continue = end of the iteration
   for x in l: body that only appends -> flat_map (fun x => body) l per list (ocoll when the body can raise)
-  for x in ctx.file: body that assigns outer variables or breaks -> Fixpoint <f>_loopN over the list, parameters = the
-     assigned outer variables (+ first); [] => current values; x :: l' => if <broke> then new values else recursive call
+  for x in l (l = ctx.file or a list of str): body that assigns outer bool variables or breaks -> Fixpoint <f>_loopN over l,
+     parameters = the assigned outer variables and the lists appended to (+ first); [] => current values;
+     x :: l' => if <broke> then new values else recursive call with the new values; afterwards the variables are projections
+     of the call.  A list may not be rebound, nor read inside the loop that fills it.
 Results.  parse_header / check_project / check_translator: outcome (list _) unit (assert -> Crash CAssertion, the domains
   calls); check_comments / check_mime: list diag;  check_headers: (ctx.metadata, list diag).
 """
@@ -559,6 +561,8 @@ class Tr:
     def assign(self, t, val, s, env, g):
         tv = ast.unparse(val)
         if isinstance(t, ast.Name):
+            if isinstance(env.get(t.id), Acc):
+                bad(s, 'an append-only list / dict is rebound')
             fresh = not isinstance(env.get(t.id), V)
             if tv in ('[]', 'collections.defaultdict(list)', '{}') and fresh:
                 env[t.id] = Acc({'[]': 'Strs', '{}': 'Dict'}.get(tv, 'MM'))
@@ -671,6 +675,7 @@ class Tr:
         st = state + accs
         pn = {k: 'st_' + k.strip('$') for k in st}
         be = dict(env, **{'$brk': V('false', 'Bool'), names[0]: V('x', elem[1])})
+        frozen = {k: len(v.segs) for k, v in env.items() if isinstance(v, Acc)}
         for k in st:
             be[k] = Acc(env[k].kind, [(pn[k], False)]) if isinstance(env[k], Acc) else V(pn[k], 'Bool')
         self.where.append('fix')
@@ -678,6 +683,8 @@ class Tr:
         self.block(s.body, be, g)
         self.fix = None
         self.where.pop()
+        if any(isinstance(v, Acc) and k not in st and len(be[k].segs) != frozen[k] for k, v in env.items()):
+            bad(s, 'the loop appends to a list that is not part of its state')
         self.nfix += 1
         fname = '%s_loop%d' % (self.name, self.nfix)
         text = lambda e, k: e[k].render(False) if isinstance(e[k], Acc) else e[k].text
